@@ -381,6 +381,11 @@ static void judge(UnitCtx& u, const std::string& p, const Ver& v, bool terrain, 
 		if (classify(p, p, v, terrain).empty() && !blank(p)) {
 			st.add("inputs_already_canonical");
 			if (q1 != p) st.add("inputs_already_canonical_changed"); // informational: the weak predicate does not define "clean" completely
+			// ... but it does for paths that already carry the prefix the game needs: "cleaning an already clean path changes nothing"
+			const bool has_data = terrain && p.compare(0, 5, "Data\\") == 0; // exactly as the clean-up itself spells the terrain prefix
+			const std::string rest = has_data ? p.substr(5) : p;
+			if (q1 != p && istarts(rest, "textures\\") && (!terrain || has_data))
+				report(u, "clean-input-changed", ctx + "the already clean path " + esc(p) + " is changed to " + esc(q1), p, v, terrain, g, s);
 		}
 		// (1) canonical form
 		if (!cls.empty()) {
